@@ -103,7 +103,7 @@ Definition col_optional (c : col) : bool :=
 
 Definition is_some {T} (o : option T) : bool := match o with Some _ => true | None => false end.
 
-(* the affiliate column (tx_csv.rs, after fix 96161d9): a blank cell on a
+(* the affiliate column (tx_csv.rs, after fix e44bc72): a blank cell on a
    Split row means "all affiliates", so a split for all affiliates does not
    need the column by itself; the column is needed when a row names an
    affiliate other than the default one, or when a split addressed to the
@@ -156,7 +156,7 @@ Definition cell (v : csvtx) (c : col) : bytes :=
   | KSfl => oshow show_sfl (v_sfl v)
   | KRatio => oshow show_ratio (v_ratio v)
   | KAf => oshow a_name (v_af v)
-  | KMemo => oshow trim (v_memo v)      (* written trimmed (fix cd7192e) *)
+  | KMemo => oshow trim (v_memo v)      (* written trimmed (fix 84ca472) *)
   | KLegacy => []   (* panic!("Invalid col") in the Rust; never in the header *)
   end.
 
